@@ -6,6 +6,7 @@ mod c02;
 mod c05;
 mod c09;
 mod c13;
+mod c19;
 mod c20;
 mod util;
 
@@ -20,6 +21,7 @@ fn main() {
         "C02" => ("model_checking", c02::run(&cli, "C02")),
         "C14" => ("model_checking", c02::run(&cli, "C14")),
         "C13" => ("fault_enumeration", c13::run(&cli)),
+        "C19" => ("model_checking", c19::run(&cli)),
         "C05" => ("model_checking", c05::run(&cli)),
         "C09" => ("model_checking", c09::run(&cli)),
         "C20" => ("model_checking", c20::run(&cli)),
